@@ -186,6 +186,36 @@ def conjunction(V, i):
     V.cover('accept' if acc(r) else 'reject')
 
 
+@per_left_leaf('union-in-conjunction', marks=['accept'], budget=(150, 400),
+    bounds='AllOf(AnyOf(L, R), S): equals S applied to the result of AnyOf(L, R) taken alone (a union that only succeeds in a '
+           'late stage, after other arguments failed, must not leave its intermediate errors behind); L fixed, R solver-picked among 10, S among {Ge, Str}'
+           'solver-picked; also under collect_errors',
+    out='as xor')
+def union_in_conjunction(V, i):
+    ls = leaves(V)
+    (ln, L), (rn, R), i, j = pick2(V, ls, i)
+    sub = [0, 7]      # Ge, Str
+    k = V.pick('S', sub)
+    sn, S = ls[k]
+    if i == j:
+        return
+    x = value(V, (ln, rn, sn))
+    U = LogicalType.any_of(L, R)
+    T = LogicalType.all_of(U, S)
+    collect = V.bool('collect_errors')
+    from utype import Options
+    o = Options(collect_errors=True) if collect else Options()
+    r = attempt(type_transform, x, T, o)
+    u = attempt(type_transform, x, U, o)
+    seq = attempt(type_transform, u[1], S, o) if acc(u) else u
+    d = lambda: 'AllOf(AnyOf(%s, %s), %s)(%r) collect_errors=%r: union alone=%r then %s=%r ; combinator=%r' % (
+        ln, rn, sn, x, collect, u, sn, seq, r)
+    V.check(acc(r) == acc(seq), 'and-of-union:verdict', d)
+    if acc(r):
+        V.check(same(r[1], seq[1]), 'and-of-union:value', d)
+    V.cover('accept' if acc(r) else 'reject')
+
+
 X3 = ('Ge', 'Lt', 'ListInt', 'Str', 'Bool', 'Int')
 
 
